@@ -85,7 +85,7 @@ def check(facts, rep, tier, cfg):
             rep.ok("C05.R1", "%s/nonempty" % b.path, where, "Push emission dominated by payload non-empty")
         else:
             sender_bad.append((b, where))
-    rep.floor("C05.R1", "Push emission sites", n, 3)
+    rep.floor("C05.R1", "Push emission sites", n, 3 if "std" in crate.features else 1)
     if reader_ok:
         rep.ok("C05.R1", "reader-filters-empty", "", "reader ignores empty frames")
     else:
